@@ -821,6 +821,7 @@ func runC15(ctx *Ctx) error {
 	ctx.Res.Rule = "reference graphs over the 8 prunable component kinds, edges placed at every $ref position (see distribution pos:*); " +
 		"exhaustive part: for every (source kind, position, target kind) a root->A chain, a root->A-(pos)->B chain, an orphan A-(pos)->B chain and an orphan 2-cycle; " +
 		"random part: graphs of 2..9 components with random edges; a third of them also through the whole generator (types + embedded specification) with one more operation that an operation-id filter removes: the components of the decoded embedded specification are exactly the referenced set; non-trivial = at least one edge; distinct by canonical JSON of the graph"
+	ctx.Res.Rule += " Session 9: TRANS Gen/Pipeline.lean; fan scenarios (3/5/6/7 operation references, component references sorting before and after them, an orphan chain) through the hook and the whole generator."
 	// every later component's name is a proper prefix of every earlier one (Nxxxxxxxxx, Nxxxxxxxx, …, N): a membership test
 	// on references that is not exact (prefix, substring, case) keeps or drops the wrong component
 	name := func(i int) string { return "N" + strings.Repeat("x", 9-i) }
